@@ -54,7 +54,7 @@ void op(int kind) {
     default: c.sg.reset(); break;
     }
 }
-void injected() { op(opB); }
+void injected() { vf_other_thread other; op(opB); }        // the other thread has its own (normal-mode) coroutine-queue state
 }
 
 extern "C" void h_sig_conc() {
